@@ -2268,6 +2268,91 @@ theorem updBK_ent_spec (m : Mdl) (hm : m.entropy = true) (t : RTree) (p : Path) 
   refine ⟨by simp [RTree.updBK, upd, updN], by simp [RTree.updBK, upd, updN, hm], by simp [RTree.updBK, upd, hm], fun x hx => ?_⟩
   simp [RTree.updBK, upd, updN, hm, hx]
 
+/-! #### rPOMCP entropy: the running knowledge measure is the sum of the stored `p log p` terms -/
+
+theorem sumQ_map_updN_not_mem (f : Nat → Rat) (s : Nat) (v : Rat) : ∀ l : List Nat, s ∉ l →
+    sumQ (l.map (updN f s v)) = sumQ (l.map f) := by
+  intro l
+  induction l with
+  | nil => intro _; rfl
+  | cons x xs ih =>
+    intro hs
+    simp only [List.mem_cons, not_or] at hs
+    have hx : x ≠ s := fun h => hs.1 h.symm
+    have hxv : updN f s v x = f x := by simp [updN, hx]
+    simp only [List.map_cons, sumQ]
+    rw [hxv, ih hs.2]
+
+theorem sumQ_map_updN_mem (f : Nat → Rat) (s : Nat) (v : Rat) : ∀ l : List Nat, l.Nodup → s ∈ l →
+    sumQ (l.map (updN f s v)) = sumQ (l.map f) - f s + v := by
+  intro l
+  induction l with
+  | nil => intro _ h; simp at h
+  | cons x xs ih =>
+    intro hnd hs
+    rw [List.nodup_cons] at hnd
+    by_cases hx : x = s
+    · subst hx
+      have hxv : updN f x v x = v := by simp [updN]
+      simp only [List.map_cons, sumQ]
+      rw [hxv, sumQ_map_updN_not_mem f x v xs hnd.1]
+      ring
+    · have hs' : s ∈ xs := by
+        simp only [List.mem_cons] at hs
+        rcases hs with h | h
+        · exact absurd h.symm hx
+        · exact h
+      have hxv : updN f s v x = f x := by simp [updN, hx]
+      simp only [List.map_cons, sumQ]
+      rw [hxv, ih hnd.2 hs']; ring
+
+theorem sumQ_append_single (l : List Rat) (x : Rat) : sumQ (l ++ [x]) = sumQ l + x := by
+  induction l with
+  | nil => simp [sumQ]
+  | cons y ys ih => simp only [List.cons_append, sumQ, ih]; ring
+
+/-- the entropy bookkeeping of one belief node: the particle types seen are listed once, unseen types hold no term,
+    and the running measure is exactly the sum of the stored terms -/
+structure KmSum (t : RTree) (p : Path) : Prop where
+  nodup : (t.keys p).Nodup
+  zero : ∀ x, x ∉ t.keys p → t.negEnt p x = 0
+  sum : t.km p = sumQ ((t.keys p).map (t.negEnt p))
+
+/-- **entropy knowledge measure**: `updateBeliefAndKnowledge` keeps `knowledgeMeasure_ = Σ_s negativeEntropy[s]`
+    (so the incremental `-= old; += new` never drifts from the stored terms, in exact arithmetic) -/
+theorem KmSum.updBK {m : Mdl} (hm : m.entropy = true) {t : RTree} {p : Path} (h : KmSum t p) (s : Nat) :
+    KmSum (t.updBK m p s) p := by
+  have ek : (t.updBK m p s).keys p = if (t.keys p).contains s then t.keys p else t.keys p ++ [s] := by
+    simp [RTree.updBK, upd]
+  have en : (t.updBK m p s).negEnt p = updN (t.negEnt p) s (m.plogp (t.tb p s + 1) (t.nN p + 1)) := by
+    simp [RTree.updBK, upd, hm]
+  have em : (t.updBK m p s).km p = t.km p - t.negEnt p s + m.plogp (t.tb p s + 1) (t.nN p + 1) := by
+    simp [RTree.updBK, upd, hm]
+  by_cases hc : s ∈ t.keys p
+  · have hc' : (t.keys p).contains s = true := by simpa using hc
+    rw [hc'] at ek
+    simp only [if_true] at ek
+    refine ⟨by rw [ek]; exact h.nodup, fun x hx => ?_, ?_⟩
+    · rw [ek] at hx
+      have hxs : x ≠ s := fun e => hx (e ▸ hc)
+      rw [en]; simp only [updN, hxs, if_false]; exact h.zero x hx
+    · rw [em, ek, en, sumQ_map_updN_mem _ _ _ _ h.nodup hc, h.sum]
+  · have hc' : (t.keys p).contains s = false := by simpa using hc
+    rw [hc'] at ek
+    simp only [Bool.false_eq_true, if_false] at ek
+    refine ⟨?_, fun x hx => ?_, ?_⟩
+    · rw [ek, List.nodup_append]
+      refine ⟨h.nodup, by simp, fun a ha b hb => ?_⟩
+      simp only [List.mem_singleton] at hb
+      subst hb
+      intro e; exact hc (e ▸ ha)
+    · rw [ek] at hx
+      simp only [List.mem_append, List.mem_singleton, not_or] at hx
+      rw [en]; simp only [updN, hx.2, if_false]; exact h.zero x hx.1
+    · rw [em, ek, en, List.map_append, List.map_cons, List.map_nil, sumQ_append_single,
+        sumQ_map_updN_not_mem _ _ _ _ hc, h.sum, h.zero s hc]
+      simp [updN]
+
 /-- **rPOMCP advance_keeps_subtree**: the tree the simulations of `sampleAction(a, o, horizon)` start from is exactly the
     `(a, o)` child with everything below it (counts, values, particle maps, knowledge measures, bookkeeping), or a clean
     fresh head node — the latter exactly when that child does not exist or holds no particle. -/
